@@ -19,7 +19,7 @@ CONSTANTS N,           \* instances 1..N; nick identifiers ordered like the numb
           FailStrat,   \* supvisors_failure_strategy after check_options: "CONTINUE" | "RESYNC" | "SHUTDOWN"
           T,           \* inactivity_ticks
           SyncTicks,   \* synchro_timeout in ticks
-          MaxCrash, MaxRestart, MaxCut, MaxUser,   \* fault / user request budgets
+          MaxCrash, MaxRestart, MaxCut, MaxUser, MaxConflict,   \* fault / user request / environment budgets
           SlowQ,       \* set of 10*i+j: FIFOs i->j scheduled freely; all other non-empty FIFOs are eager (priority)
           Checkpoint,  \* "COLD" | "JOIN": initial states
           FixF1,       \* TRUE: CONCILIATION -> ELECTION is in the transition table (fix F1)
@@ -74,7 +74,7 @@ VARIABLES alive,    \* [Inst -> BOOLEAN]
           deg,      \* [Inst -> BOOLEAN]   degraded_mode
           hold,     \* [Inst -> BOOLEAN]   environment: Starter in progress on this instance (holds DISTRIBUTION)
           q,        \* [Inst -> [Inst -> Seq(Item)]]   proxy FIFOs; q[i][i] is the local proxy (notifications)
-          cut,      \* set of {i, j}: no transport between i and j
+          cut,      \* set of <<i, j>>: no transport from i to j (directed; a partition is two cuts)
           ticked,   \* live instances that already ticked in the current round (ticks are periodic: every live
                     \* instance ticks once per round, in any order)
           round,    \* number of completed rounds
@@ -344,7 +344,7 @@ Commit(L, qbase) ==
      /\ pubs' = L.pubs
      /\ ipubs' = L.ipubs
 
-Reach(i, j) == alive[j] /\ (i = j \/ {i, j} \notin cut)
+Reach(i, j) == alive[j] /\ (i = j \/ <<i, j>> \notin cut)
 
 -----------------------------------------------------------------------------
 (* Scheduling discipline: a FIFO not in SlowQ is eager - while some eager FIFO is non-empty, only the          *)
@@ -557,16 +557,16 @@ Boot(i) ==
   /\ UNCHANGED <<cut, ticked, round, conflict>>
 
 Cut(i, j) ==
-  /\ i < j /\ Quiet /\ budget.cut > 0 /\ {i, j} \notin cut
-  /\ cut' = cut \cup {{i, j}}
+  /\ i # j /\ Quiet /\ budget.cut > 0 /\ <<i, j>> \notin cut
+  /\ cut' = cut \cup {<<i, j>>}
   /\ budget' = [budget EXCEPT !.cut = @ - 1]
   /\ act' = <<"Cut", i, j>>
   /\ pubs' = <<>> /\ ipubs' = <<>>
   /\ UNCHANGED <<alive, tick, fsm, master, inst, seen, rem, sm, mark, deg, hold, q, err, refused, ticked, round, conflict>>
 
 Heal(i, j) ==
-  /\ i < j /\ Quiet /\ {i, j} \in cut
-  /\ cut' = cut \ {{i, j}}
+  /\ i # j /\ Quiet /\ <<i, j>> \in cut
+  /\ cut' = cut \ {<<i, j>>}
   /\ act' = <<"Heal", i, j>>
   /\ pubs' = <<>> /\ ipubs' = <<>>
   /\ UNCHANGED <<alive, tick, fsm, master, inst, seen, rem, sm, mark, deg, hold, q, budget, err, refused, ticked, round,
@@ -574,9 +574,9 @@ Heal(i, j) ==
 
 \* environment: a conflict appears / disappears (duplicate process started or stopped behind Supvisors' back)
 Conflict(b) ==
-  /\ Quiet /\ conflict # b /\ budget.user > 0
+  /\ Quiet /\ conflict # b /\ budget.conflict > 0
   /\ conflict' = b
-  /\ budget' = [budget EXCEPT !.user = @ - 1]
+  /\ budget' = [budget EXCEPT !.conflict = @ - 1]
   /\ act' = <<"Conflict", b>>
   /\ pubs' = <<>> /\ ipubs' = <<>>
   /\ UNCHANGED <<alive, tick, fsm, master, inst, seen, rem, sm, mark, deg, hold, q, cut, err, refused, ticked, round>>
@@ -610,7 +610,8 @@ ColdInit ==
   /\ refused = [i \in Inst |-> 0]
 
 Init == /\ ColdInit
-        /\ budget = [crash |-> MaxCrash, restart |-> MaxRestart, cut |-> MaxCut, user |-> MaxUser]
+        /\ budget = [crash |-> MaxCrash, restart |-> MaxRestart, cut |-> MaxCut, user |-> MaxUser,
+                     conflict |-> MaxConflict]
         /\ pubs = <<>> /\ ipubs = <<>> /\ act = <<"Init">> /\ hist = <<>>
         /\ g = P!GhostInit /\ calm = 0 /\ dirty = FALSE /\ ended = FALSE
 
@@ -687,9 +688,11 @@ StepsOK == [][P!StepFailures(g, Rec) \subseteq KnownLabels]_vars
 \* C01 / C08: once the cluster has been calm for K rounds the terminal classification admits no failure
 CONSTANT K
 TerminalNow == P!TerminalFailures(Obs(alive, inc, fsm, master, inst, tick), ended)
-Terminal == calm >= K => TerminalNow \subseteq KnownLabels
-TerminalC01 == calm >= K => "C01.Convergence" \notin TerminalNow
-TerminalC08 == calm >= K => "C08.Progress" \notin TerminalNow
+\* (a start job kept in progress by the environment is not a settled cluster: nothing is demanded meanwhile)
+Held == \E i \in Inst : alive[i] /\ hold[i]
+Terminal == (calm >= K /\ ~Held) => TerminalNow \subseteq KnownLabels
+TerminalC01 == (calm >= K /\ ~Held) => "C01.Convergence" \notin TerminalNow
+TerminalC08 == (calm >= K /\ ~Held) => "C08.Progress" \notin TerminalNow
 \* C08: a decision refused by the transition table is not refused for ever (outside the known classes)
 NoRefusedForever == \A i \in Inst : (alive[i] /\ refused[i] >= 3) => P!Known_F1(Obs(alive, inc, fsm, master, inst, tick))
 \* C16 in the model: no partial operation applied outside its domain
